@@ -159,6 +159,15 @@ TRun ==
               ELSE ""
      IN Verdict(j)
 
+(* one process: the termination protocol of every tool (C08) *)
+TProc ==
+  /\ IsEvent("Proc") /\ Advance /\ Keep /\ UNCHANGED shas
+  /\ Verdict(IF ProtocolOK(Ev) THEN ""
+             ELSE IF Ev.timedOut THEN "the tool did not terminate"
+             ELSE IF Ev.signaled \/ Ev.panicked THEN "the tool crashed"
+             ELSE IF Ev.exit # 0 /\ ~Ev.stdoutEmpty THEN "output on stdout although the tool failed"
+             ELSE "failure without a diagnostic on stderr")
+
 TDone ==
   /\ l = Len(Trace) + 1
   /\ JsonSerialize("result.json",
@@ -167,7 +176,7 @@ TDone ==
   /\ l' = l + 1
   /\ UNCHANGED <<docs, par, live, bad, nchk, nundef, shas>>
 
-TNext == TReset \/ TSkip \/ TMergeDocument \/ TDocuments \/ TOutput \/ TEval \/ TRun \/ TDone
+TNext == TReset \/ TSkip \/ TMergeDocument \/ TDocuments \/ TOutput \/ TEval \/ TRun \/ TProc \/ TDone
 TSpec == TInit /\ [][TNext]_vars
 
 (* every line is consumed by exactly one action *)
